@@ -1,6 +1,7 @@
 import Originium.Model.LSM
 import Originium.Model.LSMTie
 import Originium.Model.TableTie
+import Originium.Model.TypesTie
 /-! # C10 — table lookup finds the newest version at or below the read timestamp
 
 For any set of versioned entries stored in any number of tables with any data-block size, looking
@@ -120,6 +121,16 @@ theorem C10_code_index_layout {α κ β : Type} (encData : List α → List β) 
   · intro i hi
     simpa using TableTie.ixFrom_cuts encData keyOf dflt [] bs i hi
 
+/-- The order the searches and the table builder rely on, about the *translated* `types.CompareKeys` (`GenTypes.compareKeys`,
+regenerated from `/repo/types/types.go` on every run, `strings.Compare` = the byte order, `ParseKey` / `ParseTs` = the model's):
+on versioned keys `user@ts` it answers negative exactly when the first key comes first in (user ascending, version descending) —
+the order `vlt` in which `C10_lookup_newest` is stated — so "first entry not below `key@readTs`" is "newest version at or below
+`readTs`" for the code's comparison, not only for the model's. -/
+theorem C10_code_key_order (a b : VK) (h1 : a.ts < 2^64) (h2 : b.ts < 2^64) :
+    GenTypes.compareKeys (fun x y => TypesTie.ordInt (cmpBytes x y)) TypesTie.pk parseTs (keyWithTs a.user a.ts) (keyWithTs b.user b.ts) < 0
+      ↔ vlt a b = true :=
+  TypesTie.compareKeys_neg_iff_vlt a b h1 h2
+
 #print axioms C10_table
 #print axioms C10_lookup_newest
 #print axioms C10_lookup_unique
@@ -128,4 +139,5 @@ theorem C10_code_index_layout {α κ β : Type} (encData : List α → List β) 
 #print axioms C10_code_table
 #print axioms C10_code_build_and_search
 #print axioms C10_code_index_layout
+#print axioms C10_code_key_order
 end Props
